@@ -238,6 +238,13 @@ class Enc:
         self.alias = {}      # reference-typed local -> the place it was copied from
         self.ptr = {}        # local holding `&_N` -> "_N"
         self.incl = {}       # local holding a Range / RangeInclusive of integers -> (lo, hi, type, inclusive)
+        # locals whose address is taken mutably anywhere in the function: a write through a pointer of
+        # unknown target, or a call that receives any `&mut`, may change them
+        self.addr_taken = set()
+        for b in fn.blocks.values():
+            for st in b["stmts"] + [b["term"] or ""]:
+                for am in re.finditer(r"&(?:mut|raw mut) \(*\(*(_\d+)", st):
+                    self.addr_taken.add(am.group(1))
         # assumption A2: a place whose source-level name is `level` is an indentation / nesting depth
         self.depth_places = {self.norm(p) for n, p in fn.debug.items() if n in DEPTH_NAMES}
 
@@ -292,6 +299,11 @@ class Enc:
             self.asserts.append(f"(bvule {v} #x7fffffffffffffff)")
         self.env[place] = (v, typ)
         return self.env[place]
+
+    def kill_addr_taken(self):
+        for loc in self.addr_taken:
+            self.kill(loc)
+            self.env.pop(f"discriminant({loc})", None)
 
     def kill(self, base):
         for k in [k for k in self.env if re.search(r"(?<![\w])" + re.escape(base) + r"(?![\d])", k)]:
@@ -446,13 +458,21 @@ class Enc:
     def assign(self, lhs, rhs):
         lhs = self.norm(lhs.strip())          # a write through `(*_p)` with `_p = &mut _n` is a write to `_n`
         base = re.search(r"_\d+", lhs).group(0)
+        if "(*" in lhs:
+            self.kill_addr_taken()            # pointer of unknown target: anything address-taken may change
+        elif lhs != base:
+            # a write to a field: forget everything known about the containing local's places except this one
+            keep = self.env.get(lhs)
+            self.kill(base)
+            if keep is not None:
+                self.env[lhs] = keep
         if re.match(r"^_\d+$", lhs):
             self.alias.pop(lhs, None)
             self.ptr.pop(lhs, None)
             self.incl.pop(lhs, None)
-            bm = re.match(r"^&(?:mut )?(_\d+)$", rhs.strip())
-            if bm:
-                self.ptr[lhs] = bm.group(1)
+            bm = re.match(r"^&(?:mut |raw mut |raw const )?(.+)$", rhs.strip())
+            if bm and not bm.group(1).startswith("&"):
+                self.ptr[lhs] = self.norm(bm.group(1))
             m = re.match(r"^(?:no_retag )?(?:copy|move) (\(.*\))$", rhs.strip())
             if m and self.fn.types.get(lhs, "").startswith("&"):
                 self.alias[lhs] = m.group(1)
@@ -499,9 +519,12 @@ class Enc:
                 for k in [k for k in self.env if f"(*{am.group(1)})" in k]:
                     del self.env[k]
                 tgt = self.ptr.get(am.group(1))
-                if tgt:
-                    self.kill(tgt)            # the callee may write to the local the reference points to
-                    self.env.pop(f"discriminant({tgt})", None)
+                tb = re.search(r"_\d+", tgt) if tgt else None
+                if tb and "(*" not in tgt:
+                    self.kill(tb.group(0))    # the callee may write to the local the reference points into
+                    self.env.pop(f"discriminant({tb.group(0)})", None)
+                else:
+                    self.kill_addr_taken()
         self.contract(lhs, lt, callee, args)
 
     def contract(self, lhs, lt, callee, args):
@@ -741,6 +764,7 @@ def analyse_fn(fn, solvers, stats, path_cap=4000):
                     for loc in loop_assigned.get(blk, ()):
                         e.kill(loc)
                         e.env.pop(f"discriminant({loc})", None)
+                    e.kill_addr_taken()
                 for st in blocks[blk]["stmts"]:
                     m = re.match(r"^(.*?) = (.*)$", st)
                     if m and not st.startswith(("StorageLive", "StorageDead", "FakeRead", "PlaceMention", "AscribeUserType", "Coverage", "nop", "Retag")):
@@ -984,7 +1008,7 @@ def run_job(job, overlay, scratch):
     if st:
         r["reason"] = "translator self-test failed (encoding not trusted): " + st[:400]
         return r
-    r["assumptions"].append("translator validated on this run against rustc's MIR of lib/e2_selftest/known.rs (27 functions with known verdicts)")
+    r["assumptions"].append("translator validated on this run against rustc's MIR of lib/e2_selftest/known.rs (31 functions with known verdicts)")
     try:
         bl = json.load(open(BASELINE))["undecided"] if os.path.isfile(BASELINE) else {}
         # key -> number of undecided sites with that key on the unchanged tree
